@@ -13,9 +13,11 @@ import Exetera.Model.Basic
 
   A Python `HDF5DataFrame` object is bound to one h5py group for life, so one id (`Nat`, allocation order) names both.
   Field objects on disk are ids into the append-only heap `objs` (type + payload fingerprint; h5py keeps unlinked objects
-  readable while a handle is open, so nothing is ever removed from the heap). Python field objects are ids into `handles`.
+  readable while a handle is open, so nothing is ever removed from the heap). Python field objects are ids into `handles`;
+  several of them may wrap the same h5 group (`field.writeable()` builds a second wrapper, a reopen loads new ones): each has its
+  own `_valid_reference`, they share nothing but the group.
 
-  `Variant.asFound` mirrors the code before the fix commits D22/D23/D24/NC15a, `Variant.repaired` the code with them.
+  `Variant.asFound` mirrors the code before the fix commits D22/D23/D24/NC15a/NC15b, `Variant.repaired` the code with them.
   The theorems in `Props/C15.lean` are about `repaired`; `Witness/C15.lean` shows what `asFound` did.
 -/
 namespace Exetera.Catalogue
@@ -304,6 +306,20 @@ def renameFields (v : Variant) (s : State) (g : Nat) (dict : List (Name × Name)
 def invalidate (s : State) (h : Nat) : State :=
   { s with handles := s.handles.modify h (fun hd => { hd with valid := false }) }
 
+/-- `field.writeable()`: `_ensure_valid()`, then `XField(session, self._field, self._dataframe, write_enabled=True)` — a second
+    wrapper object around the same h5 group, remembering the same dataframe, with a `_valid_reference` of its own (True).
+    Nothing ties the two objects together afterwards. Returns the new handle.
+    asFound: `NumericField.writeable()` passed `dataframe=None` (NC15b); `IndexedStringField.__init__` reset `_dataframe` (D24). -/
+def viewField (v : Variant) (s : State) (h : Nat) : Res Nat :=
+  match ensureValid s h with
+  | .error e => .err e s
+  | .ok hd =>
+    let lost : Bool := match v, s.objs[hd.oid]? with
+      | .asFound, some c => c.kind == .numeric || c.kind == .indexed
+      | _, _ => false
+    let owner := if lost then none else hd.owner
+    .ok s.handles.length { s with handles := s.handles ++ [⟨hd.oid, true, owner, hd.home, false⟩] }
+
 /-- `dataframe.copy(field, ddf, name)` -/
 def copyField (v : Variant) (s : State) (h : Nat) (g : Nat) (n : Name) : Res Nat :=
   match fieldContent s h with
@@ -501,6 +517,7 @@ inductive Op where
   | deleteFrame (d : Nat) (sd : Nat) (sframe : Name)                 -- ds.delete_dataframe(ds'[sframe])
   | moveFrame (sd : Nat) (sframe : Name) (d : Nat) (frame : Name)    -- dataset.move(ds'[sframe], ds, frame)
   | reopen (d : Nat)                                                 -- close + open again
+  | view (src : FRef)                                                -- w = field.writeable()  (the client keeps w)
   deriving DecidableEq, Repr
 
 def Op.isReopen : Op → Bool
@@ -564,6 +581,7 @@ def step (v : Variant) (s : State) : Op → Res Unit
       | some nm => delFrame s d nm
   | .moveFrame sd sfn d fn => withFrame s sd sfn fun sg => moveFrame v s sd sg d fn
   | .reopen d => .ok () (reopen v s d)
+  | .view r => withField s r fun h => (viewField v s h).void
 
 /-- a whole history; exceptions are caught by the client, the state carries on -/
 def run (v : Variant) : State → List Op → State
